@@ -98,3 +98,10 @@ Proof.
   unfold chunk_checksum. cbn [p_u p_take length Nat.leb obind].
   destruct (tol T_ohdr_no_checksum) eqn:E; unfold dev; rewrite E; cbn [obind]; reflexivity.
 Qed.
+
+(* the universal refutation KNOWN_FINDINGS C05-ohdr-no-checksum cites: EVERY version 2 header the encoder produces is rejected by the
+   strict decoder, and is accepted by the tolerant one with exactly that deviation *)
+Lemma ohdr_no_checksum_refuted x : wf_ohdr_v2 x = true -> oh_flags x < 64 ->
+  spec_dec_ohdr2 strict (enc_ohdr_v2 x) = Err /\
+  spec_dec_ohdr2 tolerant (enc_ohdr_v2 x) = Ok (logical_ohdr2 x, [T_ohdr_no_checksum], []).
+Proof. intros W F. split; rewrite spec_ohdr2 by assumption; reflexivity. Qed.
